@@ -172,7 +172,7 @@ func Go(f func()) {
 	s := cur.Load()
 	if s == nil {
 		if fr := freeCur.Load(); fr != nil {
-			go fr.guard(f)
+			go fr.spawn(f)
 			return
 		}
 		go f()
@@ -187,7 +187,7 @@ func GoDaemon(f func()) {
 	s := cur.Load()
 	if s == nil {
 		if fr := freeCur.Load(); fr != nil {
-			go fr.guard(f)
+			go fr.spawn(f)
 			return
 		}
 		go f()
@@ -680,6 +680,10 @@ type Options struct {
 	Front    bool          // second queue policy: new threads join at the front
 	NoTime   bool          // do not offer time-advance deviations
 	MaxSteps int           // livelock guard
+	// NoFreeRun (a reason) excludes the scenario from the free-running race-detector pass: inside a
+	// bubble, virtual time cannot advance while a goroutine waits for a sync.Mutex, so scenarios
+	// that stall an operation while it holds one never finish without the controlled scheduler.
+	NoFreeRun string
 }
 
 // Run executes main under the scheduler.  It must be called from the root
